@@ -67,7 +67,8 @@ def doc(with_append=True):
 def scenario():
     dcf_entry = st.one_of(
         st.tuples(st.sampled_from(["z_site", "m_main", "a_local", "k"]), doc()).map(lambda t: {"file": t[0], "doc": t[1]}),
-        st.tuples(st.sampled_from(["conf.d", "b.d"]), doc(), doc()).map(lambda t: {"glob": t[0], "docs": [["20_second", t[1]], ["10_first", t[2]]]}),
+        st.tuples(st.sampled_from(["conf.d", "b.d"]), doc(), doc(), st.sampled_from([None, None, "20_second", "10_first"])).map(
+            lambda t: {"glob": t[0], "docs": [["20_second", t[1]], ["10_first", t[2]]], "listed_first": t[3]}),  # listed_first: one of the files is *also* listed by name before the pattern
     )
     cli_item = st.one_of(
         assignment().map(lambda a: ["opt", a]), assignment().map(lambda a: ["opt", a]),
@@ -119,6 +120,8 @@ def dcf_docs(sc):
         if "file" in e:
             yield e["doc"]
         else:
+            if e.get("listed_first"):  # overlapping listings: the file takes effect where it is listed and again inside the pattern
+                yield dict(e["docs"])[e["listed_first"]]
             for _name, d in sorted(e["docs"], key=lambda x: x[0]):
                 yield d
 
@@ -153,6 +156,9 @@ def fold(sc):
 
 
 # ------------------------------------------------------------------------------------------------- execution
+ctx_note = []
+
+
 def run_scenario(sc, d):
     from typing import Dict, List, Optional
 
@@ -170,6 +176,9 @@ def run_scenario(sc, d):
             for name, dc in e["docs"]:
                 with open(os.path.join(d, e["glob"], name + ".json"), "w") as f:
                     json.dump(nest(dc), f)
+            if e.get("listed_first"):
+                files.append(os.path.join(d, e["glob"], e["listed_first"] + ".json"))
+                ctx_note.append("overlap")
             files.append(os.path.join(d, e["glob"], "*.json"))
     env = {}
     if sc["envcfg"] is not None:
@@ -296,6 +305,8 @@ def run_case(ctx, sc):
     ctx.cls("dcf:%d" % len(sc["dcf"]))
     if any("glob" in e for e in sc["dcf"]):
         ctx.cls("dcf-with-glob")
+    if any(e.get("listed_first") for e in sc["dcf"]):
+        ctx.cls("dcf-overlapping-listing")
     ctx.sample()
 
 
